@@ -37,7 +37,7 @@ type AddonDef struct {
 	Sources []*cbc.Source `json:"sources,omitempty" jsonschema:"title=Sources"`
 
 	// Extensions defines the list of extensions that are associated with an add-on.
-	Extensions []*cbc.Definition `json:"extensions" jsonschema:"title=Extensions"`
+	Extensions []*cbc.Definition `json:"extensions,omitempty" jsonschema:"title=Extensions"`
 
 	// Tags is slice of tag sets that define what can be assigned to each document schema.
 	Tags []*TagSet `json:"tags,omitempty" jsonschema:"title=Tags"`
@@ -45,7 +45,7 @@ type AddonDef struct {
 	// Scenarios are applied to documents after normalization and before
 	// validation to ensure that form specific extensions have been added
 	// to the document.
-	Scenarios []*ScenarioSet `json:"scenarios" jsonschema:"title=Scenarios"`
+	Scenarios []*ScenarioSet `json:"scenarios,omitempty" jsonschema:"title=Scenarios"`
 
 	// Identities that are specific for the add-on and may be validated against or
 	// used during conversion processes.
@@ -63,7 +63,7 @@ type AddonDef struct {
 
 	// Corrections is used to provide a map of correction definitions that
 	// are supported by the add-on.
-	Corrections CorrectionSet `json:"corrections" jsonschema:"title=Corrections"`
+	Corrections CorrectionSet `json:"corrections,omitempty" jsonschema:"title=Corrections"`
 }
 
 // WithAddons prepares the Addons struct with the provided list of keys.
